@@ -8,7 +8,7 @@ Stage K, for every generated (module, value, codec):
     round-trip theorem are evaluated on the case (`rt`), which classifies known findings.
 """
 from .. import core, impl
-from ..codecs import MODELLED, value_tags, py_equal, impl_answer_enc, impl_answer_dec
+from ..codecs import MODELLED, RT_CODECS, value_tags, py_equal, impl_answer_enc, impl_answer_dec
 from ..gen import Gen, Opts, module_text, ty_sx, val_sx, canon_py, features
 
 CODECS = ['ber', 'der', 'per', 'uper', 'oer']
@@ -68,7 +68,7 @@ def run(ctx):
             vsx = val_sx(t, v)
             for codec in MODELLED:
                 index[(ci, vi, codec)] = len(reqs)
-                reqs.append('rt\t%s\t%s\t%s' % (codec, tsx, vsx))
+                reqs.append('rt\t%s\t%s\t%s' % (codec if codec in RT_CODECS else 'uper', tsx, vsx))
                 reqs.append('enc\t%s\t%s\t%s' % (codec, tsx, vsx))
     answers = ctx.model.batch(reqs) if ctx.model.available() else None
     if answers is None:
@@ -113,7 +113,7 @@ def run(ctx):
                 model_rt = model_enc = None
                 if answers is not None and codec in MODELLED:
                     j = index[(ci, vi, codec)]
-                    model_rt, model_enc = answers[j], answers[j + 1]
+                    model_rt, model_enc = (answers[j] if codec in RT_CODECS else None), answers[j + 1]
                     mine = impl_answer_enc(r)
                     if model_enc.endswith('unmodelled'):
                         ctx.count(codec + '.model.unmodelled')
